@@ -56,6 +56,8 @@ def draw_cfg(r, profile):
         "dir_component": r.random() < 0.3,
         "p_uniform": r.choice([0.0, 0.0, 0.5, 0.9]),
         "p_multiline": r.choice([0.0, 0.3, 0.6]),
+        "p_incstyle": r.choice([0.0, 0.2, 0.5]),
+        "hdr_name_style": r.choice(["plain", "plain", "odd"]),
         "p_forced_rel": r.choice([0.0, 0.5]),
         "cpp": r.random() < 0.3,
     }
@@ -198,6 +200,9 @@ class Gen:
             self.uid += 1
             mname = f"INC_{self.uid}"
             return [["define", mname, val], ["include", "m", mname]]
+        if r.random() < self.cfg.get("p_incstyle", 0.0):
+            # legal spellings of the directive itself: blanks after '#', leading blanks, trailing comment
+            return [["include", form, sp, r.choice(["sp", "tab", "lead", "cmt", "lcmt"])]]
         return [["include", form, sp]]
 
     def items(self, depth, headers, budget):
@@ -264,7 +269,10 @@ class Gen:
         names = []
         for i in range(cfg["n_hdr"]):
             ext = ".hpp" if (cfg["cpp"] and r.random() < 0.3) else ".h"
-            names.append(f"h{i}{ext}")
+            stem = f"h{i}"
+            if cfg.get("hdr_name_style") == "odd":
+                stem = r.choice([f"h{i}", f"h-{i}", f"h{i}_v2", f"h{i}.inc", f"{i}h"])
+            names.append(f"{stem}{ext}")
         hdrs = []   # dict(name, idx, paths, dirsp, missing_alias)
         for i, nm in enumerate(names):
             k = r.randint(1, min(cfg["dup_dirs"], len(hdr_dirs)))
@@ -280,7 +288,7 @@ class Gen:
         for h in reversed(hdrs):
             later = [x for x in hdrs if x["idx"] > h["idx"]]
             for path in h["paths"]:
-                tag = path.replace("/", "_").replace(".", "_").upper()
+                tag = "".join(ch if ch.isalnum() else "_" for ch in path).upper()
                 body = [["code", 1]] + self.items(0, later, [r.randint(1, cfg["budget"])])
                 if cfg.get("fortran") and r.random() < 0.7:
                     # a C comment at the top of a header shared with Fortran units (a licence banner):
@@ -302,7 +310,10 @@ class Gen:
                     items = [["once"]] + body
                 elif k < cfg["p_once"] + cfg["p_guard"]:
                     g = f"G_{tag}"
-                    items = [["cond", [["ifndef", g, [["define", g, None]] + body]]]]
+                    if r.random() < 0.3:
+                        items = [["cond", [["if", ["ndef", g], [["define", g, None]] + body]]]]
+                    else:
+                        items = [["cond", [["ifndef", g, [["define", g, None]] + body]]]]
                 else:
                     items = body
                 files[path] = {"lang": "c", "items": items}
